@@ -1028,7 +1028,9 @@ func jsonCases(c runCfg, prop string) ([]*scratch.Pkg, []string, map[string]inte
 				sp.CompBodies["RB"+names[ti]] = b
 				b = dialect.Body{Ref: "RB" + names[ti]}
 			}
-			sp.Paths = append(sp.Paths, &dialect.PathItem{Raw: "/t/" + names[ti], Ops: []*dialect.Op{{Method: "POST", Body: &b, Responses: []dialect.Response{{Status: "200"}}}}})
+			// (the same type is the body of the 200 response: E values are also written by the generated Write)
+			sp.Paths = append(sp.Paths, &dialect.PathItem{Raw: "/t/" + names[ti], Ops: []*dialect.Op{{Method: "POST", Body: &b,
+				Responses: []dialect.Response{{Status: "200", Content: "application/json", Schema: &dialect.Schema{Ref: names[ti]}}}}}})
 			serverBody[pkg+" "+names[ti]] = true
 			bodyOps++
 		}
